@@ -125,6 +125,8 @@ func c17Hooks(xr *xssRoots, name string, hooks *absint.Hooks) {
 			if call, isCall := ret.Results[0].(*ssa.Call); isCall {
 				if cal := call.Call.StaticCallee(); cal != nil && xr.env.p.InModule(cal) {
 					handsOver = true // the state it hands over to is judged at its own returns
+				} else if _, isBuiltin := call.Call.Value.(*ssa.Builtin); cal == nil && !isBuiltin && !call.Call.IsInvoke() {
+					handsOver = true // a state taken from a table of alternatives: `return row.next(h)`
 				}
 			}
 		}
